@@ -1,3 +1,5 @@
 import ZCV.Props.C06
 open ZCV.Props.C06
+#print axioms C06_include_eq_inline
 #print axioms C06_unclosed_fragment_rejected
+#print axioms C06_stray_close_rejected
